@@ -93,8 +93,18 @@ func (r *Rule) Except(symbol, reason string) {
 	r.C.Excepts = append(r.C.Excepts, fmt.Sprintf("%s %s: %s", r.O.Rule, symbol, reason))
 }
 
-// Failed reports whether the rule has any violation so far.
-func (r *Rule) Failed() bool { return len(r.O.Violations) > 0 }
+// Failed reports whether an anchor of the rule failed to resolve so far (the
+// remaining sub-checks of the rule would be meaningless).  Violations found by
+// earlier sub-checks do NOT stop later sub-checks: a known finding must never
+// mask a different violation of the same rule.
+func (r *Rule) Failed() bool {
+	for _, v := range r.O.Violations {
+		if strings.HasPrefix(v.Key, "unresolved:") {
+			return true
+		}
+	}
+	return false
+}
 
 // KnownFinding is one record of known_findings.jsonl.
 type KnownFinding struct {
